@@ -257,6 +257,12 @@ macro_rules! array_trait {
                 }
                 let mut m = v;
                 ensure_r!(panics(move || Array::swap_elements(&mut m, i, N)), "swap_elements-out-of-range-accepted", "{}::swap_elements({}, {}) did not panic", who, i, N);
+                let mut m = v;
+                ensure_r!(panics(move || Array::swap_elements(&mut m, N, i)), "swap_elements-out-of-range-accepted", "{}::swap_elements({}, {}) did not panic", who, N, i);
+            }
+            for bad in [N, N + 1, usize::MAX] {
+                let mut m = v;
+                ensure_r!(panics(move || Array::swap_elements(&mut m, bad, bad)), "swap_elements-out-of-range-accepted", "{}::swap_elements({}, {}) did not panic", who, bad, bad);
             }
             Ok(())
         }
@@ -435,6 +441,12 @@ fn numeric<E: Elem + cgmath::BaseNum>(d: &mut Draw) -> Outcome {
             model.swap(i, j);
             ensure!(Comp::comps(&m) == model, "swap_elements", "Point3::swap_elements({}, {})", i, j);
         }
+    }
+    for bad in [3usize, 4, usize::MAX] {
+        let mut m = p3;
+        ensure!(panics(move || Array::swap_elements(&mut m, bad, bad)), "swap_elements-out-of-range-accepted", "Point3::swap_elements({}, {}) did not panic", bad, bad);
+        let mut m = p3;
+        ensure!(panics(move || Array::swap_elements(&mut m, 0, bad)), "swap_elements-out-of-range-accepted", "Point3::swap_elements(0, {}) did not panic", bad);
     }
     // sum / product on small values that cannot overflow any element type
     let small: Vec<E> = {
